@@ -123,3 +123,23 @@ contract(
     options={"callee_contracts": {"RefsAbs16.subkeys": ("<abstract>", "RefsAbs16.subkeys@abs"), "RefsAbs16.set_if_equals": ("<abstract>", "RefsAbs16.set_if_equals@abs"),
                                   "RefsAbs16.remove_if_equals": ("<abstract>", "RefsAbs16.remove_if_equals@abs")}},
 )
+
+
+# ---- get_symrefs lists EVERY symbolic ref: whatever name allkeys() yields whose stored value parses as 'ref: <target>' is a key
+# of the result (a loose symbolic ref that shadows a packed entry of the same name included)
+contract(prop=["C16"], file="<abstract>", func="RefsAbs16.allkeys@abs", trusted=True, params={"self": "obj:RefsAbs16"}, returns="opaque", raises={ANY: None})
+contract(prop=["C16"], file="<abstract>", func="RefsAbs16.read_ref@abs", trusted=True, params={"self": "obj:RefsAbs16", "refname": "opaque"}, returns="opaque", raises={"KeyError": None, "OSError": None},
+         ensures=["result is uf('stored_text', refname)"], note="ghost view of a read: THE stored text of that name")
+contract(prop=["C16"], file="<abstract>", func="parse_symref_value@abs", trusted=True, params={"contents": "opaque"}, returns="opaque",
+         raises={"ValueError": ["not upred('symref_text', contents)"]}, ensures=["upred('symref_text', contents)"],
+         note="parse_symref_value raises ValueError exactly for texts that are not 'ref: <target>'")
+contract(prop=["C16"], file="<abstract>", func="Ref@id", trusted=True, params={"x": "opaque"}, returns="opaque", raises={}, ensures=["result is x"], note="typing.NewType")
+contract(
+    prop=["C16"], file=R, func="RefsContainer.get_symrefs",
+    params={"self": "obj:RefsAbs16"}, returns="dict[opaque,opaque]", raises={ANY: None},
+    loops={1: dict(invariant=["all((not upred('symref_text', uf('stored_text', elem(_seq1, j)))) or dict_has(ret, elem(_seq1, j)) for j in range(0, _it1))"],
+                   types={"ret": "dict[opaque,opaque]"})},
+    # (the claim about the result is the invariant at loop exit; `return ret` follows the loop directly)
+    options={"callee_contracts": {"RefsAbs16.allkeys": ("<abstract>", "RefsAbs16.allkeys@abs"), "RefsAbs16.read_ref": ("<abstract>", "RefsAbs16.read_ref@abs"),
+                                  "parse_symref_value": ("<abstract>", "parse_symref_value@abs"), "Ref": ("<abstract>", "Ref@id")}},
+)
